@@ -379,6 +379,11 @@ func (g *Gen) feeOrderDance() []*GenTx {
 			}
 		}
 		t2 = g.Build(tx.TypeSellAllSwapPool, data, taker, x, plainTx)
+	case 2: // sell everything of a coin with reserve through its bonding curve, the fee (in that coin) goes through the pool:
+		// the forward exchange of the fee may return a few pip less than the inverse calculation promised (F35)
+		if ci := cs.Coins().GetCoin(x); ci != nil && ci.BaseOrHasReserve() {
+			t2 = g.Build(tx.TypeSellAllCoin, tx.SellAllCoinData{CoinToSell: x, CoinToBuy: 0, MinimumValueToBuy: big.NewInt(1)}, taker, x, plainTx)
+		}
 	}
 	if t2 == nil {
 		amount := new(big.Int).Div(bal, big.NewInt(int64(4+g.rint(40))))
